@@ -1,0 +1,11 @@
+//go:build verif
+
+package management
+
+// Contracts for the goverif VC generator (/verif). Comment-only file: it adds no code.
+
+// cmdArgs (the `args` builtin): abstracted (scope functional) - what is checked are the
+// preconditions of the flag-parsing calls it makes, i.e. that it copes with a failed ParseFlags.
+//@ func cmdArgs [C24 C19]
+//@   scope functional
+//@   requires p != nil
